@@ -596,6 +596,99 @@ theorem path_rpc_total {A : Type} (env : PathEnv A) (r : RPath) (src dst : Nat) 
         · rename_i e he; cases hc; exact metaFromRpc_ne_panic r he
         · cases hc
 
+/-- **Path → RPC → path is the identity on canonical paths** (`PathCanon`, defined in `Lemmas/Signed.lean`):
+the AS-local empty path, and every standard path whose raw bytes the data-plane parser accepts exactly,
+whose next hop survives the socket-address text codec, and whose metadata has an even, non-zero number of
+interfaces with 16-bit ids, an expiration ≤ `i64::MAX`, notes absent or one per AS, no latency / bandwidth on
+the last interface, inter-AS link types on all even interfaces or on none (each one surviving
+`to_i32`/`from_i32`), internal hop counts on all inner odd interfaces or on none, and per-interface values
+that survive their own encoding (`lat_canon`, `geo_canon`, `link_canon_iff` say which do).  This is the
+*fixed* `to_rpc` (commit 0d48d68); on the original code the statement was false for every path carrying
+latency, bandwidth, link-type or internal-hop metadata (corpus/C18/020). -/
+theorem path_rpc_roundtrip {A : Type} (env : PathEnv A) (p : Path A) (hc : PathCanon env p) :
+    pathFromRpc env (pathToRpc env p) p.src p.dst = .ok p :=
+  path_roundtrip_of_canon env p hc
+
+/-- which link types survive `to_i32` → `from_i32`: all but `Unknown(0..=3)` and `Unknown(≥ 256)` -/
+theorem link_canon_iff (t : LinkType) :
+    linkFromI32 (linkToI32 t) = t ↔
+      (match t with
+       | .unknown v => LINK_OPENNET < v ∧ v < 2 ^ LINK_UNKNOWN_BITS
+       | _ => True) := by
+  cases t with
+  | unset => decide
+  | direct => decide
+  | multiHop => decide
+  | openNet => decide
+  | unknown v =>
+    simp only [linkToI32, linkFromI32, LINK_UNSET, LINK_DIRECT, LINK_MULTIHOP, LINK_OPENNET, LINK_UNKNOWN_BITS]
+    by_cases h0 : v = 0
+    · subst h0; simp
+    by_cases h1 : v = 1
+    · subst h1; simp
+    by_cases h2 : v = 2
+    · subst h2; simp
+    by_cases h3 : v = 3
+    · subst h3; simp
+    have a0 : ¬ ((v : Int) = ((0 : Nat) : Int)) := by omega
+    have a1 : ¬ ((v : Int) = ((1 : Nat) : Int)) := by omega
+    have a2 : ¬ ((v : Int) = ((2 : Nat) : Int)) := by omega
+    have a3 : ¬ ((v : Int) = ((3 : Nat) : Int)) := by omega
+    simp only [a0, a1, a2, a3, if_false, LinkType.unknown.injEq]
+    have hp : ((2 ^ 8 : Nat) : Int) = 256 := by decide
+    rw [hp]
+    constructor
+    · intro h; omega
+    · rintro ⟨_, h⟩; omega
+
+/-- the aliasing is real (open finding): `Unknown(1)` is written as 1 and read back as `Direct` -/
+theorem link_alias_witness : linkFromI32 (linkToI32 (.unknown 1)) = .direct := by decide
+
+/-- latencies that survive: whole seconds within `i64`, sub-second nanoseconds (every `std::time::Duration`
+below 2^63 s); "no latency" is written as −1 s and read back as "no latency" -/
+theorem lat_canon (s ns : Nat) (hs : (s : Int) ≤ i64Max) (hns : ns < NANOS_PER_SECOND) :
+    durToStd (latToRpc (some (s, ns))) = some (s, ns) ∧ durToStd (latToRpc none) = none := by
+  constructor
+  · have h32 : (ns : Int) ≤ i32Max := by
+      have : (NANOS_PER_SECOND : Int) ≤ i32Max := by decide
+      have : (ns : Int) < (NANOS_PER_SECOND : Int) := by exact_mod_cast hns
+      omega
+    simp only [latToRpc, hs, h32, if_true]
+    have hn : (ns : Int) < ((NANOS_PER_SECOND : Nat) : Int) := by exact_mod_cast hns
+    unfold durToStd normalizeDur
+    have c1 : ¬ ((ns : Int) ≤ -((NANOS_PER_SECOND : Nat) : Int) ∨ (ns : Int) ≥ ((NANOS_PER_SECOND : Nat) : Int)) := by omega
+    simp only [c1, if_false]
+    have c2 : ¬ ((s : Int) < 0 ∧ (ns : Int) > 0) := by omega
+    have c3 : ¬ ((s : Int) > 0 ∧ (ns : Int) < 0) := by omega
+    simp only [c2, c3, if_false]
+    have c4 : (s : Int) ≥ 0 ∧ (ns : Int) ≥ 0 := by omega
+    simp [c4]
+  · decide
+
+/-- the lossy expiration is real (open finding): `u64` values above `i64::MAX` are clamped by `to_rpc` -/
+theorem expiration_clamp_witness :
+    (if ((2 ^ 64 - 5 : Nat) : Int) ≤ i64Max then ((2 ^ 64 - 5 : Nat) : Int) else i64Max) = i64Max := by decide
+
+/-- geo coordinates that survive: absent, or present with a non-zero coordinate or a non-empty address,
+and never `Some("")` as address -/
+theorem geo_canon (g : Geo) (hz : ¬ (f32IsZero g.lat = true ∧ f32IsZero g.lon = true ∧ g.address.getD [] = []))
+    (ha : g.address ≠ some []) :
+    geoFromRpc (geoToRpc (some g)) = some g ∧ geoFromRpc (geoToRpc none) = none := by
+  constructor
+  · cases g with
+    | mk lat lon address =>
+      simp only at hz ha
+      cases address with
+      | none =>
+        simp only [Option.getD_none, and_true] at hz
+        simp only [geoToRpc, geoFromRpc, Option.getD_none, List.isEmpty_nil, Bool.and_true]
+        cases h1 : f32IsZero lat <;> cases h2 : f32IsZero lon <;> simp_all
+      | some a =>
+        have hne : a ≠ [] := fun h => ha (by rw [h])
+        have hie : a.isEmpty = false := by cases a <;> simp_all
+        simp [geoToRpc, geoFromRpc, hie]
+  · decide
+
 /-! ## non-vacuity -/
 
 section Examples
@@ -652,6 +745,46 @@ example : ∃ a : AsEntry, WellTyped a :=
     simp only [List.mem_singleton] at hp
     subst hp
     exact ⟨by decide, by decide, by decide, by decide, by decide, by decide⟩⟩
+
+/-- a canonical two-interface path with latency, bandwidth, link type, notes, EPIC authenticators and a
+next hop: `path_rpc_roundtrip` is not vacuous (and the conversion really returns it) -/
+def toyIfs : List IfMeta :=
+  [ { isdAs := 281474976710657, id := 1, geo := some { lat := 1, lon := 0, address := some [90] },
+      latency := some (0, 5000000), bandwidth := some 1000, link := some (.egress .direct) },
+    { isdAs := 281474976710658, id := 2, geo := none, latency := none, bandwidth := none, link := none } ]
+
+def toyMeta : PathMeta :=
+  { expiration := 5000, mtu := 1400, epic := some ([1], [2]), notes := some [[110], []], interfaces := some toyIfs }
+
+def toyPath : Path Bytes :=
+  { src := 281474976710657, dst := 281474976710658, dp := .standard [0, 0, 32, 0], nextHop := some [49],
+    pmeta := some toyMeta }
+
+def toyEnv : PathEnv Bytes := { parseRaw := fun _ => .exact, parseAddr := fun b => some b, showAddr := id }
+
+example : (match pathFromRpc toyEnv (pathToRpc toyEnv toyPath) toyPath.src toyPath.dst with
+    | .ok p => decide (p = toyPath)
+    | .error _ => false) = true := by decide
+
+/-- … and it satisfies the hypothesis of `path_rpc_roundtrip` -/
+example : PathCanon toyEnv toyPath := by
+  refine PathCanon.standard _ _ _ toyMeta toyIfs _ (by decide) rfl (fun a _ => rfl) ?_
+  refine ⟨rfl, by decide, by decide, by decide, by decide, Or.inr ⟨_, rfl, by decide⟩, ?_, ?_, ?_⟩
+  · intro i h
+    match i, h with
+    | 0, _ => exact ⟨by decide +revert, by decide +revert, by decide +revert, by decide +revert⟩
+    | 1, _ => exact ⟨by decide +revert, by decide +revert, by decide +revert, by decide +revert⟩
+  · left
+    intro k h
+    match k, h with
+    | 0, _ => exact ⟨.direct, rfl, by decide⟩
+  · refine ⟨?_, Or.inr ?_⟩
+    · intro k h _
+      match k, h with
+      | 0, _ => rfl
+    · intro k h
+      match k, h with
+      | 0, _ => rfl
 
 end Examples
 
